@@ -26,6 +26,7 @@ META["text"] = (
     "Positive definiteness of M (hence positive pivots) is NOT proved, it is an oracle check. "
     "NOT proved, oracle only (on implementation outputs of compiled random trees with free/ball/slide/hinge joints, branching, several trees, joint armature, fixed tendons with and without tendon armature): "
     "M symmetric positive definite and equal to sum_b J_b' I_b J_b + armature (+ tendon armature), L'DL reconstructs M, mj_solveM(mj_mulM v) = v, mj_fullM v = mj_mulM v, qfrc_bias = mj_rne(0), "
+    "qfrc_bias = an independent world-frame Newton-Euler force at zero acceleration (sum_b Jp' m (Jdot_p v - g) + Jr' (I Jdot_r v + w x I w), Jdot v by central differences of mj_jac along qvel, 2e-6; bodies with 2-3 joints in mixed hinge/slide order are in the fixed corpus), "
     "mj_rne(a) - mj_rne(0) + armature.a (+ tendon armature term) = M a (mj_rne itself carries no armature term: the identity of the property statement holds with the armature added, as mj_inverse does). "
     "mj_crb, mj_rne, mj_tendonArmature, the upper = true variants of the structure builder (tied exactly, no theorem), index/sleep filtering and n > 1 right-hand sides are not modelled. "
     "Tie: mj_makeDofDofSparse (exported) is called on raw random forests for all four reduced x upper variants and compared exactly with the model; m->M_rownnz/M_rowadr/M_colind of compiled trees are compared exactly with the model applied to "
@@ -171,13 +172,17 @@ def run(ctx):
                                                        " ".join(hx(v) for v in vals), " ".join(hx(v) for v in x))))
     # C. compiled random trees
     FEAT = {"FREE": 1, "BALL": 2, "SLIDE": 4, "TENDON": 32, "LIMIT": 1 << 10, "SPRING": 1 << 12, "MULTITREE": 1 << 15}
+    # fixed corpus (both tiers): bodies with 2-3 joints in mixed hinge/slide order, with and without slide joints in the base tree
+    for seed, feat, nbody in ((11, FEAT["SPRING"], 1), (12, FEAT["SPRING"] | FEAT["SLIDE"], 2), (13, FEAT["SPRING"] | FEAT["SLIDE"] | FEAT["MULTITREE"], 3),
+                              (14, FEAT["SPRING"] | FEAT["BALL"] | FEAT["SLIDE"], 4), (15, FEAT["SPRING"] | FEAT["FREE"] | FEAT["SLIDE"], 3), (16, FEAT["SPRING"], 5)):
+        reqs.append(("model", {"seed": seed, "feat": feat, "nbody": nbody, "flags": 4}, "model %d %d %d %d" % (seed, feat, nbody, 4)))
     for k in range(14 * T):
         feat = FEAT["SPRING"]
         for name in ("FREE", "BALL", "SLIDE", "MULTITREE", "TENDON"):
             if rng.random() < 0.6:
                 feat |= FEAT[name]
         nbody = rng.choice([1, 2, 3, 4, 5, 6, 8, 10])
-        flags = (1 if (feat & FEAT["TENDON"]) and rng.random() < 0.5 else 0) | (2 if rng.random() < 0.5 else 0)
+        flags = (1 if (feat & FEAT["TENDON"]) and rng.random() < 0.5 else 0) | (2 if rng.random() < 0.5 else 0) | (4 if rng.random() < 0.6 else 0)
         seed = rng.randrange(1, 10 ** 6)
         reqs.append(("model", {"seed": seed, "feat": feat, "nbody": nbody, "flags": flags}, "model %d %d %d %d" % (seed, feat, nbody, flags)))
     reqs.append(("tendemo", {"armature": 0.5, "coef": [1.0, 1.0]}, "tendemo %s %s %s" % (hx(0.5), hx(1.0), hx(1.0))))
@@ -254,7 +259,7 @@ def run(ctx):
                               expected={"law": "two world-attached hinges coupled by a fixed tendon with armature a: M01 = a*c0*c1", "M": want}, observed=o[0],
                               signature={"site": "mj_tendonArmature", "class": "cross-branch-terms-dropped"})
         else:
-            o = parse(ol, "iiiiii" + "d" * 13 + "i")
+            o = parse(ol, "iiiiii" + "d" * 14 + "i")
             if o is None:
                 if "compile" in ol:
                     continue          # generator produced a model the compiler rejects: not a case
@@ -264,7 +269,7 @@ def run(ctx):
             if nv == 0:
                 continue
             par, simple, rnnz, radr, cind = o[1], o[2], o[3], o[4], o[5]
-            Mv, qLD, dinv, full, v, Mvv, u, bias, rne0, rnea, arm, Mref, Tm = o[6:19]
+            Mv, qLD, dinv, full, v, Mvv, u, bias, rne0, rnea, arm, Mref, Tm, biasref = o[6:20]
             stats["model"] += 1
             stats["model_nv_max"] = max(stats["model_nv_max"], nv)
             stats["models_with_simple_dofs"] += 1 if any(simple) else 0
@@ -313,6 +318,12 @@ def run(ctx):
                 viol(info, line, "mj_solveM(mj_mulM v) = v", v, u, "solveM")
             if not close(bias, rne0, 1e-12):
                 viol(info, line, "qfrc_bias = mj_rne(0)", rne0, bias, "rne")
+            # independent Newton-Euler at zero acceleration (world frame, Jdot v by central differences of mj_jac;
+            # nothing of cdof / cdof_dot / cvel is used): the clause "the bias force equals recursive Newton-Euler"
+            stats["bias_ref_max_err"] = max(stats.get("bias_ref_max_err", 0.0), max(abs(a - b) for a, b in zip(bias, biasref)) / (1 + max(abs(t) for t in bias)))
+            if not close(bias, biasref, 2e-6):
+                viol(info, line, "qfrc_bias = independent Newton-Euler force at zero acceleration (sum_b Jp' m (Jdot_p v - g) + Jr' (I Jdot_r v + w x I w))",
+                     biasref, bias, "comVel_rne")
             Tv = matvec(rowsof(Tm, nv, nv), v)
             lhs = [rnea[i] - rne0[i] + arm[i] * v[i] + Tv[i] for i in range(nv)]
             if not close(lhs, Mvv, OT, 1 + max(abs(t) for t in rnea + rne0 + Mvv)):
